@@ -32,12 +32,12 @@ open Icinga.C20 (JValue NumCodec Bytes jsonEncode jsonDecode nsEncode nsEncodeAl
     entry at or below `p`, and every new value `v`: `ModifyAttribute(p, v)` succeeds, the following
     `RestoreAttribute(p)` succeeds, and the object — attribute tree *and* original attributes — is
     exactly what it was (a null `original_attributes` pointer having become the empty dictionary). -/
-theorem modify_restore_partial {N : Type} (o : Obj N) (p : Path) (v old : JValue N) (orig : Orig N)
-    (horig : orig = (match o.original with | some g => g | none => []))
+theorem modify_restore_partial {N : Type} (o : Obj N) (p : Path) (v old : JValue N)
     (hex : getPath o.fields p = some old)
     (hleaf : p.length = 1 ∨ isDict old = false)
-    (hfresh : ∀ e ∈ orig, isPrefix p e.1 = false) :
-    ∃ o1, modify o p v = .ok o1 ∧ restore o1 p = .ok { fields := o.fields, original := some orig } := by
+    (hfresh : ∀ e ∈ origOf o, isPrefix p e.1 = false) :
+    ∃ o1, modify o p v = .ok o1 ∧ restore o1 p = .ok { fields := o.fields, original := some (origOf o) } := by
+  generalize horig : origOf o = orig at hfresh
   cases p with
   | nil => simp [getPath] at hex
   | cons f rest =>
@@ -61,19 +61,12 @@ theorem modify_restore_partial {N : Type} (o : Obj N) (p : Path) (v old : JValue
           · simp at h
           · exact h
         have hne : isEmptyVal cur = false := isEmptyVal_false_of_getIn hex
-        obtain ⟨cur', hset, hres⟩ := setDeep_restoreDeep (k :: ks) [f] cur old v orig (by simp) hex hleaf'
+        obtain ⟨cur', hset, hres, hne'⟩ := setDeep_restoreDeep (k :: ks) [f] cur old v orig (by simp) hex hleaf'
         refine ⟨{ fields := dSet f cur' o.fields, original := some (oAdd (f :: k :: ks) old orig) }, ?_, ?_⟩
         · have : [f] ++ k :: ks = f :: k :: ks := rfl
-          simp [modify, hf, hne, ← horig, hset, this]
-        · have hne' : isEmptyVal cur' = false := by
-            cases cur' with
-            | obj _ => rfl
-            | null => simp [restoreDeep] at hres
-            | bool _ => simp [restoreDeep] at hres
-            | num _ => simp [restoreDeep] at hres
-            | str _ => simp [restoreDeep] at hres
-            | arr _ => simp [restoreDeep] at hres
-          have hlast : List.drop (ks.length + 1) (f :: k :: ks) = lastTok (k :: ks) := by
+          rw [this] at hset
+          simp [modify, hf, hne, horig, hset]
+        · have hlast : List.drop (ks.length + 1) (f :: k :: ks) = lastTok (k :: ks) := by
             simp [lastTok]
           simp [restore, dGet_dSet_self cur' hf, oAdd, hnot, hne', filter_match_oInsert old hfresh,
             filter_nomatch_oInsert old hfresh, hlast, hres, dSet_cancel cur' hf]
@@ -205,7 +198,7 @@ theorem modify_restore_meets_spec_partial {N : Type} [DecidableEq N] (o : Obj N)
     (hleaf : p.length = 1 ∨ isDict old = false) :
     ∃ o1 o2, modify o p v = .ok o1 ∧ restore o1 p = .ok o2 ∧
       specM [] o.fields [(.modify p v, true, o1.fields), (.restore p, true, o2.fields)] = none := by
-  obtain ⟨o1, hm, hr⟩ := modify_restore_partial o p v old [] (by simp [hnone]) hex hleaf (by simp)
+  obtain ⟨o1, hm, hr⟩ := modify_restore_partial o p v old hex hleaf (by simp [origOf, hnone])
   refine ⟨o1, _, hm, hr, ?_⟩
   simp [specM, specStepM, gLookup]
 
@@ -304,6 +297,29 @@ theorem complete_write_reads_new (s0 : FS) (path tmp : FName) (ino : Ino) (mode 
     (hino : ∀ i, dirLookup s0.dir path = some i → i ≠ ino) :
     readNow (run (atomicWrite path tmp ino mode chunks) s0) path = some chunks.flatten :=
   complete_write_aux s0 path tmp ino mode chunks hq htmp hino
+
+/-- The logged form of a call: everything but the final rename names the temp file. -/
+def evOf : Sys → SysEv
+  | .mkstemp _ _ => ⟨.mkstemp, false⟩
+  | .chmod _ _ => ⟨.chmod, false⟩
+  | .write _ _ => ⟨.write, false⟩
+  | .fsync _ => ⟨.fsync, false⟩
+  | .close _ => ⟨.close, false⟩
+  | .rename _ _ => ⟨.rename, true⟩
+  | .unlink _ => ⟨.unlink, false⟩
+
+/-- **atomic_write_conforms.**  The sequence the theorems above are about is a word of the protocol
+    predicate `protocolWord` that the driver evaluates on the calls the harness intercepted
+    (`mkstemp chmod write* fsync close rename`, fsync before rename, rename last, nothing but the rename
+    names the target) — for any content and any number of writes. -/
+theorem atomic_write_conforms (path tmp : FName) (ino : Ino) (mode : Nat) (chunks : List Bytes) :
+    protocolWord ((atomicWrite path tmp ino mode chunks).map evOf) = true := by
+  simp [atomicWrite, protocolWord, evOf, List.dropWhile]
+  decide
+
+-- the predicate rejects a writer that renames before fsync, or writes to the target
+example : protocolWord [⟨.mkstemp, false⟩, ⟨.chmod, false⟩, ⟨.write, false⟩, ⟨.close, false⟩, ⟨.rename, true⟩, ⟨.fsync, false⟩] = false := by decide
+example : protocolWord [⟨.mkstemp, false⟩, ⟨.chmod, false⟩, ⟨.write, true⟩, ⟨.fsync, false⟩, ⟨.close, false⟩, ⟨.rename, true⟩] = false := by decide
 
 section FsExamples
 
